@@ -23,12 +23,12 @@ LIM = {"quick": dict(C=2), "thorough": dict(C=3)}
 
 
 def bounds(tier):
-  d = dict(LIM[tier]); d["meaning"] = "C = capacity of the tracked-source list; sched 0 lazy/1 eager"
+  d = dict(LIM[tier]); d["meaning"] = "C = capacity of the tracked-source list; sched 0 lazy/1 eager; fin = tracked sources that have already finished (still tracked)"
   return d
 
 
 def pre(v, lim):
-  return v["C"] <= lim["C"]
+  return v["C"] <= lim["C"] and v["fin"] < v["C"]
 
 
 class StopAtSleep(BaseException):
@@ -58,7 +58,7 @@ class EagerThread(fabric.FabricThread):
         vt.sleep = real_sleep
 
 
-def case(C, deferred, kind, n, sched):
+def case(C, deferred, kind, n, sched, fin=0):
   hsm, ao = fabric.install()
   from miros.event import Event
   ao.Thread = EagerThread
@@ -69,12 +69,23 @@ def case(C, deferred, kind, n, sched):
   import builtins
   a, log = fabric.make_active_object(ao, hsm)
   old = []
-  for i in range(C):
+  # fin of the tracked sources have fired their one time and finished; they stay tracked (nobody cancelled them) and count
+  done = []
+  for i in range(fin):
+    done.append(a.post_fifo(Event(signal="W_DONE%d" % i), period=5, times=1, deferred=True))
+  for t in fabric.timer_threads():
+    if not t.ended:
+      t.run_body()
+  while len(a.queue.deque):
+    a.queue.deque.popleft()
+  for i in range(C - fin):
     tid = a.post_fifo(Event(signal="W_OLD%d" % i), period=5, times=0, deferred=True)
     old.append(tid)
   recs = {r.uuid: r for r in a.posted_events_queue}
+  if len(recs) != C:
+    return FAIL("harness:tracked-count", "%d tracked, expected %d" % (len(recs), C))
   ev = Event(signal="W_REJECTED")
-  what = "capacity=%d deferred=%s kind=%s times=%d schedule=%s" % (C, bool(deferred), "lifo" if kind else "fifo", n, "eager" if sched else "lazy")
+  what = "capacity=%d (%d of them finished) deferred=%s kind=%s times=%d schedule=%s" % (C, fin, bool(deferred), "lifo" if kind else "fifo", n, "eager" if sched else "lazy")
   EagerThread.eager = bool(sched)
   real_pp = ao.pp
   ao.pp = lambda x: None          # the rejection branch pretty-prints the tracked list; output is not the subject
@@ -107,6 +118,9 @@ def case(C, deferred, kind, n, sched):
   for t in fabric.timer_threads():
     if t.args and t.args[0].event is ev and t.args[0].task_run_event.is_set():
       return FAIL("rejected-source-left-running", what)
+  for tid in done:
+    if not any(x.uuid == tid for x in a.posted_events_queue):
+      return FAIL("tracked-source-untracked", "%s: a finished source left the tracked list" % what)
   for tid in old:
     r = recs[tid]
     if not r.task_run_event.is_set():
@@ -116,7 +130,7 @@ def case(C, deferred, kind, n, sched):
   return PASS()
 
 
-Family(globals(), "h_reject", params=[("C", 1, 3), ("deferred", 0, 1), ("kind", 0, 1), ("n", 0, 2), ("sched", 0, 1)],
+Family(globals(), "h_reject", params=[("C", 1, 3), ("deferred", 0, 1), ("kind", 0, 1), ("n", 0, 2), ("sched", 0, 1), ("fin", 0, 2)],
        pre=pre, case=case, split=[], tiers=LIM)
 
 
